@@ -195,6 +195,7 @@ impl super::DebugSession {
     }
 
     fn should_skip_breakpoint(&mut self, pid: Pid, addr: RelocatedAddress) -> anyhow::Result<bool> {
+        self.refresh_breakpoint_addresses();
         let Some(hit) = self.record_breakpoint_hit(debugger::address::Address::Relocated(addr))
         else {
             return Ok(false);
